@@ -64,9 +64,11 @@ def addConnectionRaw (c : ConnSet) (pr : Proto) (ports : PortSet) : ConnSet :=
     | some cur => c.set pr (some (cur.union ports))
     | none => c.set pr (some ports.copy)
 
-/-- `ConnectionSet.AddConnection` -/
+/-- `ConnectionSet.AddConnection`: a no-op on the AllowAll form (`if conn.AllowAll { return }`:
+All Connections already holds every connection, and no entry is stored next to the flag);
+otherwise `addConnection` followed by `checkIfAllConnections` -/
 def addConnection (c : ConnSet) (pr : Proto) (ports : PortSet) : ConnSet :=
-  (c.addConnectionRaw pr ports).checkIfAll
+  if c.allowAll then c else (c.addConnectionRaw pr ports).checkIfAll
 
 /-- `GetAllTCPConnections` -/
 def allTCP : ConnSet := (mk' false).addConnection .TCP (PortSet.mk' true)
